@@ -30,9 +30,9 @@ Codes == {0, 1, 32, 65, 127, 128, 255}
 HdrVals == {0, 1, -1, 700, -200, 50, 1000000, 2147483647, -2147483647}
 Angles == {0, -12, 5, 90, -90}
 FontNames == {"Test-Regular", "X", "Times-Roman", "a.b_c"}
-FullNames == {"Test Regular", "X", "Times New Roman Bold Italic", "", "Single"}
-Versions == {"", "001.000", "1.0 beta 2", "Version 2"}
-Notices == {"", "Copyright (c) 2024 Test Foundry. All rights reserved.", "x", "(c) A; B", "Notice Notice"}
+FullNames == {"Test Regular", "X", "Times New Roman Bold Italic", "", "Single", "Demo 50% Condensed", "100%% %s %d"}
+Versions == {"", "001.000", "1.0 beta 2", "Version 2", "2.0 100%"}
+Notices == {"", "Copyright (c) 2024 Test Foundry. All rights reserved.", "x", "(c) A; B", "Notice Notice", "100% free %v"}
 KernNames == {"A", "f", "N"}
 KernVals == {-50, 0, 10, 32767, -32768}
 KernRecs == [l : KernNames, r : KernNames, adj : KernVals]
